@@ -676,6 +676,18 @@ func checkLocationEvaluator(c *Ctx, gsq, ev *ssa.Function) {
 				}
 				stt, why = broken, "on the Complement branch a value is returned without ReverseComplement: "+short(p.t.String())
 			}
+			// a data value handed back on a path that never looks at the strand flag (a fast path in front of it)
+			if !pos && !neg && stt == holds && p.t.Op != "const" && p.cond != nil && p.cond.Op != "true" && len(opaqueParts(p.t, nil)) == 0 {
+				flagFree := true
+				for _, at := range p.cond.atoms() {
+					if at.Atom.contains(func(x *Term) bool { return x.isField("Complement") }) {
+						flagFree = false
+					}
+				}
+				if flagFree {
+					stt, why = broken, "under "+short(p.cond.String())+" the value "+short(p.t.String())+" is returned without location.Complement having been examined: a complemented location of that kind comes back on the forward strand"
+				}
+			}
 		}
 	}
 	c.judge(stt, "TERM-EVAL", "complement => ReverseComplement of the whole concatenation", ev.Pos(), "result = RC(concatenation) exactly on the location.Complement branch", why)
